@@ -165,6 +165,19 @@ Record cfg : Set := {
   offline_dl : Z; purge_dl : Z;
   probe_dl : Z }.             (* ProbeDeadline: carried by the case configuration, read by NO step of the model
                                 (the probes purge sends are packets, not table state) *)
+(* the deadlines NewSession accepts (session.go, Config.NewSession): defaults, limits, and the one ordering it enforces *)
+Definition default_probe : Z := 120.      (* DefaultProbeDeadline   = 2 min *)
+Definition default_offline : Z := 300.    (* DefaultOfflineDeadline = 5 min *)
+Definition default_purge : Z := 3660.     (* DefaultPurgeDeadline   = 61 min *)
+Definition max_probe : Z := 1800.         (* 30 min *)
+Definition max_offline : Z := 3600.       (* 60 min *)
+Definition max_purge : Z := 86400.        (* 24 h *)
+(* seconds; a zero in any of the three selects the three defaults *)
+Definition deadlines_okb (probe offline purge : Z) : bool :=
+  ((probe =? 0) || (offline =? 0) || (purge =? 0))%Z ||
+  ((0 <? probe) && (probe <=? max_probe) && (0 <? offline) && (offline <=? max_offline) && (probe <=? offline) &&
+   (0 <? purge) && (purge <=? max_purge))%Z.
+
 Definition set_probe (p : Z) (c : cfg) : cfg :=
   {| own_mac := own_mac c; own_ip4 := own_ip4 c; own_lla := own_lla c; rt_mac := rt_mac c; rt_ip4 := rt_ip4 c;
      lan_base := lan_base c; lan_bits := lan_bits c; offline_dl := offline_dl c; purge_dl := purge_dl c; probe_dl := p |}.
